@@ -34,6 +34,25 @@ pub fn fromstr(size: usize, rng: &mut Rng, out: &mut Out) {
     ] {
         pool.push(s.to_owned());
     }
+    // long but valid spellings: FromStr accepts any number of leading zeros, long fractions and exponents
+    for pad in [1usize, 2, 3, 4, 5, 6, 10, 11, 19, 20, 21, 39, 40, 41, 60] {
+        let z = "0".repeat(pad);
+        for v in ["7", "42", "255", "256", "127", "128", "65535", "4294967295", "18446744073709551615", "340282366920938463463374607431768211455"] {
+            pool.push(format!("{z}{v}"));
+            pool.push(format!("+{z}{v}"));
+            pool.push(format!("-{z}{v}"));
+        }
+        pool.push(format!("{z}1.5"));
+        pool.push(format!("1.5{z}"));
+        pool.push(format!("1e{z}2"));
+        pool.push(format!("{z}1.2.3.4"));
+        pool.push(format!("1.2.3.{z}4"));
+        pool.push(format!("{z}1::2"));
+        pool.push(format!("::{z}1"));
+        pool.push(format!("{}", "9".repeat(pad)));
+        pool.push(format!("-{}", "9".repeat(pad)));
+        pool.push(format!("{}true", " ".repeat(pad.min(2))));
+    }
     for _ in 0..(200 * size) {
         let alpha = ["0", "1", "9", "-", "+", ".", "e", ":", "f", "a", "5", "2", "::"];
         let n = 1 + rng.below(12);
